@@ -436,3 +436,37 @@ Definition g_one (over : list str) (delegate : bool) (m : str) : who :=
 
 Definition g_dispatch (over : list str) (delegate : bool) (methods : list str) : list who * bool :=
   (map (g_one over delegate) methods, false).
+
+(* ------------------------------------------------------------------ *)
+(** * A function value kept by the host across the session *)
+
+(** What happens on the interpreter between two uses of a function value obtained from it. *)
+Inductive step :=
+| SEval        (* an evaluation that reaches Execute (it may define or redefine symbols, panic, call
+                  the function itself): Execute stamps the global frame with the interpreter's run id *)
+| SEvalFail    (* an evaluation that fails to compile: Execute is not reached *)
+| SCancel      (* an EvalWithContext that is cancelled: Execute stamps the frame, then stop() bumps the
+                  interpreter's run id *)
+| SCallNative. (* the host calls the function value *)
+
+Inductive outcome := OOk | OZero.
+
+(** genFunctionWrapper's native function starts its frame from the global frame and reads that
+    frame's run id AT EACH CALL; runCfg executes nothing when the id is not the interpreter's: the
+    wrapper then returns its zeroed result slots. [live] = "the global frame carries the current id". *)
+Fixpoint y_session (live : bool) (h : list step) : list outcome :=
+  match h with
+  | [] => []
+  | SEval :: h' => y_session true h'
+  | SEvalFail :: h' => y_session live h'
+  | SCancel :: h' => y_session false h'
+  | SCallNative :: h' => (if live then OOk else OZero) :: y_session live h'
+  end.
+
+(** The contract: at any later point of the session the native call behaves like the call inside the script. *)
+Fixpoint g_session (h : list step) : list outcome :=
+  match h with
+  | [] => []
+  | SCallNative :: h' => OOk :: g_session h'
+  | _ :: h' => g_session h'
+  end.
